@@ -1466,6 +1466,17 @@ class Circuit(Unitary, StateVectorMap, Collection[Operation]):
             self.insert(cycle_index, op)
             return
 
+        # Resolve the cycle index once: every operation is inserted at the
+        # same place, which is only meaningful for an absolute index.
+        if cycle_index >= self.num_cycles:
+            self.append_circuit(circuit, location)
+            return
+
+        if cycle_index < -self.num_cycles:
+            cycle_index = 0
+        elif cycle_index < 0:
+            cycle_index = self.num_cycles + cycle_index
+
         for op in reversed(circuit):
             mapped_location = [location[q] for q in op.location]
             self.insert(
@@ -1714,6 +1725,7 @@ class Circuit(Unitary, StateVectorMap, Collection[Operation]):
         if len(self[point].location.intersection(op.location)) == 0:
             raise ValueError("Point's qudit is not in operation's location.")
 
+        point = self.normalize_point(point)
         old_op = self._circuit[point[0]][point[1]]
         if old_op is not None and set(old_op.location) == set(op.location):
             if old_op.location[0] != op.location[0]:
@@ -1803,6 +1815,7 @@ class Circuit(Unitary, StateVectorMap, Collection[Operation]):
         move: bool = False,
     ) -> None:
         """Replace the operation at 'point' with `circuit`."""
+        point = self.normalize_point(point)
         op = self.pop(point)
 
         if circuit.num_qudits != op.num_qudits:
